@@ -178,6 +178,7 @@ def build_server(reg, common):
                  **common)
     reg.contract(P + ":_is_same_origin", params={"websocket_origin": "any", "host_scheme": "str", "host_port": "any",
                                                  "host_policy": "any"}, returns="bool", verify=False, **common)
+    build_origin(reg, common)
     reg.external("urllib.parse.urlparse", lambda ex, state, args, kwargs, sv: (
         ex.raise_if(state, z3.Bool(fresh_name("urlparse_raises")), "ValueError"),
         VTuple([VStr(z3.String(fresh_name("url_" + n))) for n in ("scheme", "netloc", "path", "params", "query", "fragment")]))[1])
@@ -252,6 +253,85 @@ def build_server(reg, common):
 
 def _magic():
     return z3.Concat(*[z3.Unit(z3.IntVal(b)) for b in MAGIC])
+
+
+def build_origin(reg, common):
+    """the origin policy functions themselves: _url_to_origin keeps exactly the scheme / host / port of the Origin URL
+    (a port given explicitly -- any value, 0 included -- is never replaced by the scheme's default); _is_same_origin
+    accepts exactly when one of the configured patterns matches the whole reconstituted origin scheme://host:port"""
+    reg.shape("SplitResult", fields={"scheme": "str", "hostname": "opt:str", "port": "opt:int"})
+    G = reg.shapes["Ghost"].fields
+    G.update({"split": "obj:SplitResult"})
+
+    def ext_urlsplit(ex, state, args, kwargs, sv):
+        ex.raise_if(state, z3.Bool(fresh_name("urlsplit_raises")), "ValueError")       # (also stands for .port raising)
+        r = ex.reg.fresh_obj(ex, state, "SplitResult", "split")
+        _g(state).fields["split"] = r
+        return r
+    reg.external("urllib.parse.urlsplit", ext_urlsplit)
+    reg.overrides[(P, "parse")] = VModule("urllib.parse")
+    DEF = "(443 if ghost.split.scheme.lower() == 'https' else (80 if ghost.split.scheme.lower() == 'http' else None))"
+    reg.contract(
+        P + ":_url_to_origin", name=P + ":_url_to_origin[policy]", params={"url": "str"}, returns="any",
+        modifies=["ghost.split"],
+        ensures=[
+            "result == 'null' or (isinstance(result, tuple) and len(result) == 3)",
+            "implies(url.lower() == 'null', result == 'null')",
+            "implies(result != 'null', result[0] == ghost.split.scheme.lower() and result[1] == ghost.split.hostname and "
+            "ghost.split.hostname is not None and len(ghost.split.hostname) > 0)",
+            # the port of the origin is the one given in the URL whenever one is given; the scheme's default otherwise
+            "implies(result != 'null' and ghost.split.port is not None, result[2] == ghost.split.port)",
+            "implies(result != 'null' and ghost.split.port is None, result[2] is %s)" % DEF,
+            "implies(url.lower() != 'null' and ghost.split.scheme.lower() == 'file', result == 'null')",
+        ],
+        raises={"ValueError": "True"}, props=["C07"], spec_module="specs.c07")
+
+    # compiled patterns are opaque identities; pattern.match(text) is an uninterpreted predicate of (pattern, text)
+    match_f = z3.Function("re_matches", z3.IntSort(), z3.StringSort(), z3.BoolSort())
+
+    def ext_match(ex, state, args, kwargs, sv):
+        hit = match_f(sv.t, args[0].t)
+        return mk_union([(hit, VOpaque(fresh_name("match_object"), truthy=True) if False else VInt(1)), (z3.Not(hit), VNone)])
+    reg.external("pattern.match", ext_match)
+    reg.shape("Pattern", fields={}, methods={"match": "pattern.match"})
+    reg.native_spec("re_matches", lambda ex, state, p_, t: VBool(match_f(p_.t, t.t)))
+    ORIGIN = "origin_text(websocket_origin)"
+
+    def origin_text(ex, state, w):
+        """scheme://host:port of an origin triple (port None prints as 'None', as str.format does)"""
+        res = []
+        for g, a in alts_of(w):
+            if isinstance(a, VTuple) and len(a.items) == 3:
+                pt = []
+                for g2, p_ in alts_of(a.items[2]):
+                    pt.append((g2, z3.StringVal("None") if isinstance(p_, VNoneT) else
+                               z3.If(p_.t >= 0, z3.IntToStr(p_.t), z3.Concat(z3.StringVal("-"), z3.IntToStr(-p_.t)))))
+                t = pt[-1][1]
+                for g2, x in reversed(pt[:-1]):
+                    t = z3.If(g2, x, t)
+                res.append((g, z3.Concat(a.items[0].t, z3.StringVal("://"), a.items[1].t, z3.StringVal(":"), t)))
+            else:
+                res.append((g, z3.StringVal("")))
+        t = res[-1][1]
+        for g, x in reversed(res[:-1]):
+            t = z3.If(g, x, t)
+        return VStr(t)
+    reg.native_spec("origin_text", origin_text)
+    reg.contract(
+        P + ":_is_same_origin", name=P + ":_is_same_origin[policy]",
+        params={"websocket_origin": "const:'null'|tuple:str,str,opt:int", "host_scheme": "str", "host_port": "any",
+                "host_policy": "list:sym:Pattern"}, returns="bool",
+        ensures=[
+            # nothing is the same as the null origin
+            "implies(websocket_origin == 'null', result is False)",
+            # otherwise: exactly when some configured pattern matches the whole origin scheme://host:port
+            "implies(websocket_origin != 'null', result == exists(j, 0, len(host_policy), re_matches(host_policy[j], %s)))"
+            % ORIGIN],
+        loops={0: {"index": "_i", "invariant": [
+            "0 <= _i <= len(host_policy)", "origin_header == %s" % ORIGIN,
+            "forall(j, 0, _i, not re_matches(host_policy[j], origin_header))"],
+            "vars": {"origin_pattern": "sym:Pattern"}, "pure_calls": True}},
+        props=["C07"], spec_module="specs.c07")
 
 
 def extra_checks(tier, seed):
@@ -394,9 +474,58 @@ print(json.dumps({"bad": bad}))
 '''
 
 
+_ORIGIN_HARNESS = r"""
+import json, re
+from urllib.parse import urlsplit
+from autobahn.websocket.protocol import _url_to_origin, _is_same_origin
+from autobahn.util import wildcards2patterns
+bad, cases = [], 0
+def chk(c, what, case):
+    if not c and len(bad) < 6: bad.append({"what": what, "case": case})
+DEFAULT = {"http": 80, "https": 443}
+for scheme in ("http", "https", "HTTP", "ws", "chrome-extension", "file"):
+    for host in ("www.example.com", "EXAMPLE.com", "10.0.0.1", "[::1]"):
+        for port in (None, "0", "00", "1", "80", "443", "8080", "65535"):
+            url = "%s://%s%s" % (scheme, host, "" if port is None else ":" + port)
+            cases += 1
+            try:
+                got = _url_to_origin(url)
+            except ValueError:
+                got = "ValueError"
+            ref = urlsplit(url)
+            if scheme == "file": want = "null"
+            else: want = (scheme.lower(), ref.hostname, int(port) if port is not None else DEFAULT.get(scheme.lower()))
+            chk(got == want, "_url_to_origin(%r) = %r, the URL says %r" % (url, got, want), url)
+for u in ("null", "NULL", "Null"):
+    cases += 1; chk(_url_to_origin(u) == "null", "null origin not recognised", u)
+# policy: accepted exactly when some pattern matches the whole scheme://host:port
+POLICIES = [["*"], ["http://www.example.com:80"], ["https://*.example.com:443", "http://localhost:8080"], ["*://*.example.com:*"], []]
+ORIGINS = [("http", "www.example.com", 80), ("http", "www.example.com", 0), ("http", "www.example.com", 8080), ("https", "a.example.com", 443),
+           ("https", "a.example.com.evil.org", 443), ("http", "localhost", 8080), ("http", "xlocalhost", 8080), ("http", "localhost", 80801),
+           ("ws", "b.example.com", None), "null"]
+for pol in POLICIES:
+    pats = wildcards2patterns(pol)
+    for org in ORIGINS:
+        cases += 1
+        got = _is_same_origin(org, "http", 80, pats)
+        if org == "null": want = False
+        else:
+            text = "%s://%s:%s" % org
+            want = any(re.fullmatch(w.replace(".", r"\.").replace("*", ".*"), text) is not None for w in pol)
+        chk(got == want, "_is_same_origin(%r) with %r = %r, expected %r" % (org, pol, got, want), [pol, org])
+print(json.dumps({"bad": bad, "cases": cases}))
+"""
+
+
 def replay(o):
     from pyvc import replaylib as Rp
     unit = o.get("unit") or o.get("name", "")
+    if "_url_to_origin" in unit or "_is_same_origin" in unit:
+        out = Rp.run_py(_ORIGIN_HARNESS, timeout=120)
+        bad = out.get("bad") if isinstance(out, dict) else None
+        return {"reproduced": bool(bad), "cases": (bad or [])[:4], "observed": None if bad else out,
+                "detail": "origin URLs with every port form (absent, 0, 00, default, explicit) and allow-lists, against "
+                          "urllib / re.fullmatch as an independent reference"}
     if "processHandshake" not in unit:
         return {"reproduced": False, "detail": "no replay harness for this unit"}
     out = Rp.run_py(_HARNESS, timeout=120)
